@@ -55,6 +55,7 @@ class Normalizer:
         self.sqrt_arg = {}  # atom key -> polynomial of its argument (for reduction s^2 -> arg)
         self.prime_atoms = {}
         self.uf_seen = []
+        self._pts = {}
 
     # ---- polynomial helpers with radical reduction
     def pmul(self, a, b):
@@ -184,6 +185,33 @@ class Normalizer:
                 return a, one
         return self.atom(t), one
 
+    _P = (1 << 61) - 1
+
+    def _fp(self, poly):
+        """fingerprint: value of the polynomial at a fixed pseudo-random point modulo a Mersenne prime; None if it contains a
+        radical atom (those are reduced by s^2 -> arg, which an arbitrary evaluation point would not respect)"""
+        P = self._P
+        tot = 0
+        for mono, c in poly.items():
+            v = (c.numerator % P) * pow(c.denominator % P, P - 2, P) % P
+            for k, e in mono:
+                if k in self.sqrt_arg:
+                    return None
+                pt = self._pts.get(k)
+                if pt is None:
+                    pt = self._pts[k] = (hash(("pt", k[0], str(k[1]), len(self._pts))) % (P - 2)) + 1
+                v = v * pow(pt, e, P) % P
+            tot = (tot + v) % P
+        return tot
+
+    def _maybe_equal(self, a, b):
+        """cheap necessary condition for n1*d2 == n2*d1"""
+        (n1, d1), (n2, d2) = a, b
+        f = [self._fp(x) for x in (n1, d1, n2, d2)]
+        if any(x is None for x in f):
+            return True
+        return (f[0] * f[3] - f[2] * f[1]) % self._P == 0
+
     def uf_atom(self, t, name, args):
         canon = tuple((frozenset(n.items()), frozenset(d.items())) for n, d in args)
         key = ("u", name, canon)
@@ -191,6 +219,8 @@ class Normalizer:
             # congruence modulo common factors: f(n1/d1) and f(n2/d2) are the same atom when n1*d2 == n2*d1
             for (nm, oargs, okey) in self.uf_seen:
                 if nm != name or len(oargs) != len(args):
+                    continue
+                if not all(self._maybe_equal(x, y) for x, y in zip(args, oargs)):
                     continue
                 try:
                     same = all(not _padd(self.pmul(n1, d2), self.pmul(n2, d1), -1) for (n1, d1), (n2, d2) in zip(args, oargs))
